@@ -24,7 +24,7 @@ BUDGET = {"quick": 10000, "thorough": 300000}
 
 ALIAS = {"form_title": ["title", "set_form_title", "Form Title", "FORM_TITLE"], "form_id": ["id_string", "set_form_id", "Form ID", "form_id "],
          "version": ["Version"], "style": ["Style"], "submission_url": ["Submission URL", "submission_url"], "instance_name": ["Instance Name"],
-         "public_key": ["Public Key"], "name": ["Name"]}
+         "public_key": ["Public Key"], "name": ["Name"], "omit_instanceID": ["Omit_InstanceID", "omit_instanceid", "OMIT_INSTANCEID", "omit instanceID"]}
 STEMS = ["data", "my form", "a.b", "Survey_2024", "x-y", "ünï"]
 
 
@@ -45,7 +45,10 @@ def _cases(draw):
     if P(0.3):
         s["name"] = uniq("root")
     if P(0.4) and g.names:
-        s["instance_name"] = "concat(${%s}, '%s')" % (g.pick(g.names), uniq("in"))
+        refd = g.pick(g.names)
+        s["instance_name"] = "concat(${%s}, '%s')" % (refd, uniq("in"))
+        if "name" not in s and P(0.25):
+            s["name"] = refd      # a question may be called like the form; ${name} still means the question
     if P(0.4):
         s["submission_url"] = f"https://example.com/{uniq('sub')}?a=1&b=2"
     if P(0.3):
@@ -58,7 +61,7 @@ def _cases(draw):
         s["style"] = g.pick(["pages", "theme-grid", "pages theme-grid"]) + " " + uniq("cls")
     if P(0.4):
         pre = g.pick(["esri", "aa", "x1"])
-        s["namespaces"] = f'{pre}="http://example.org/{uniq("ns")}"' + (f' bb="http://b.example/{uniq("ns")}"' if P() else "")
+        s["namespaces"] = f'{pre}="http://example.org/{uniq("ns")}{g.pick(["", "", "?v=1", ";a=b=c"])}"' + (f' bb="http://b.example/{uniq("ns")}"' if P() else "")
         if P(0.7):
             s[f"attribute::{pre}:thing"] = uniq("attrval")
     if P(0.3):
@@ -92,6 +95,11 @@ def _cases(draw):
         c["stem"] = g.pick(STEMS)
         # the suffix is only a hint: upper-case, unknown or missing suffixes must still supply the stem
         c["suffix"] = g.pick(["", "", "", "upper", ".txt", "none"])
+    if "form_id" in s and not both_ids and P(0.12):
+        c["blank_form_id_col"] = True     # the id sits in the id_string column; the form_id column exists but its cell is empty
+        c.get("alias", {}).pop("form_id", None)
+    if form.get("settings") and P(0.1):
+        form["settings_blank_rows"] = g.integer(1, 2)
     if P(0.3):
         form.setdefault("args", {})["form_name"] = uniq("argname")
     if not form["settings"]:
@@ -108,7 +116,14 @@ def run_form_of(case):
     alias = case.get("alias") or {}
     if form.get("settings") and alias:
         form["settings"] = {alias.get(k, k): v for k, v in form["settings"].items()}
+    if case.get("blank_form_id_col") and "form_id" in form.get("settings", {}):
+        form["settings"] = {("id_string" if k == "form_id" else k): v for k, v in form["settings"].items()}
+        form["settings_header_extra"] = ["form_id"]
     return form
+
+
+def use_md(form):
+    return render.md_ok(form) and not form.get("settings_blank_rows")
 
 
 def _suffix(case, normal):
@@ -119,7 +134,7 @@ def _suffix(case, normal):
 def file_stem(case):
     import pathlib
 
-    ext = ".md" if render.md_ok(run_form_of(case)) else ".xlsx"
+    ext = ".md" if use_md(run_form_of(case)) else ".xlsx"
     return pathlib.Path(case["stem"] + _suffix(case, ext)).stem
 
 
@@ -129,7 +144,7 @@ def run(case):
     if "stem" in case:
         d = tempfile.mkdtemp(prefix="vf_c11_")
         try:
-            if render.md_ok(form):
+            if use_md(form):
                 path = os.path.join(d, case["stem"] + _suffix(case, ".md"))
                 with open(path, "w", encoding="utf-8") as f:
                     f.write(render.to_md(form))
@@ -162,6 +177,15 @@ def evaluate(case) -> Outcome:
         return out
     if status == "rejected":
         out.label("outcome:rejected:" + common.err_class(res))
+        # the form name is only the root element's name: calling the form like one of its questions must not change the verdict
+        nm = case["form"].get("settings", {}).get("name")
+        if nm is not None and any(n["c"].get("name") == nm for n, _ in model.walk(case["form"]["nodes"])):
+            other = model.clone(case)
+            other["form"]["settings"]["name"] = "zz_other_root_name"
+            r2 = run(other)
+            out.checked("C11.root-name")
+            if r2 is not None and r2[0] == "ok":
+                out.fail("C11.root-name", "name-of-a-question", f"rejected only because the form is called like its question {nm!r}: {res}")
         return out
     out.label("outcome:accepted")
     try:
@@ -176,7 +200,7 @@ def evaluate(case) -> Outcome:
     stem = case.get("stem")
     if stem is not None:
         # file containers: cells are trimmed and non-breaking spaces read as spaces (documented, see C12)
-        as_md = render.md_ok(run_form_of(case))
+        as_md = use_md(run_form_of(case))
         s = {k: (val if as_md else val.replace("\xa0", " ")).strip() for k, val in s.items()}
     exp_id = s.get("form_id", file_stem(case) if stem is not None else "data")
     exp_title = s.get("form_title", exp_id)
